@@ -24,6 +24,7 @@ import (
 	"io"
 	"net/http"
 	"net/url"
+	"slices"
 	"strings"
 	"time"
 
@@ -369,9 +370,17 @@ func (h *genericContextualizer) calculateCacheKey(
 	hash.Write(ttlBytes)
 	hash.Write(sub.Hash())
 
-	for k, v := range values {
+	// iterate in a defined order. Otherwise the key depends on the random map iteration order
+	valueNames := make([]string, 0, len(values))
+	for k := range values {
+		valueNames = append(valueNames, k)
+	}
+
+	slices.Sort(valueNames)
+
+	for _, k := range valueNames {
 		hash.Write(stringx.ToBytes(k))
-		hash.Write(stringx.ToBytes(v))
+		hash.Write(stringx.ToBytes(values[k]))
 	}
 
 	return hex.EncodeToString(hash.Sum(nil))
